@@ -150,8 +150,8 @@ class C15(Prop):
             "text), deletion / duplication / replacement / swap of a token, role-aware dangling "
             "references in EDIF (cellRef, libraryRef, portRef, member, instanceRef, design cellRef/"
             "libraryRef -> undeclared identifier), unsupported constructs, garbage; followed by 0-2 "
-            "further corrupted parses of other formats. Oracle per parse: terminates (20 s watchdog per "
-            "case), either raises an Exception or returns a strictly well-formed netlist, dangling "
+            "further corrupted parses of other formats. Oracle per parse: terminates (watchdog of 150 s per "
+            "case of <=100 parses that take milliseconds each), either raises an Exception or returns a strictly well-formed netlist, dangling "
             "references and unsupported constructs must raise, namespace_manager.default is unchanged by "
             "the call; finally a fixed probe script (element creation under the current policy, legal/"
             "illegal/case-colliding identifiers, lookups, parse+compose of one good file per format) must "
@@ -160,10 +160,11 @@ class C15(Prop):
     ASSUMPTIONS = ["any Exception subclass counts as a clean rejection",
                    "numeric literals of 5+ digits are excluded from fuzzer inputs: every reader creates "
                    "as many pins/wires as an index or width says (time proportional to the literal)",
-                   "a hang is reported only through the per-case watchdog (20 s for texts that parse in "
-                   "milliseconds)"]
+                   "a hang is reported only through the per-case watchdog (150 s for up to ~100 parses of "
+                   "texts that parse in milliseconds)"]
     N = {"quick": 2400, "thorough": 40000}
-    CASE_TIMEOUT_S = 20
+    CASE_TIMEOUT_S = 150    # a case is up to ~100 parses + the probe (normally < 2 s in total)
+    PARSE_LIMIT_S = 20      # a single parse of these small texts normally takes milliseconds
 
     def strategy(self, tier):
         ecfg = gen_ir.Cfg(unnamed=False, alphabet=NAMES, max_defs=4, max_children=3, max_width=3,
@@ -205,7 +206,7 @@ class C15(Prop):
         if kind == "truncate":
             return [(join(fmt, toks[:i]), False, "truncate")]
         if kind == "all-truncations":
-            step = max(1, n // 300)
+            step = max(1, n // 100)
             return [(join(fmt, toks[:k]), False, "truncate") for k in range(0, n, step)]
         if kind == "delete":
             return [(join(fmt, toks[:i] + toks[i + 1:]), False, "delete")]
@@ -260,13 +261,18 @@ class C15(Prop):
     def one_parse(self, res, fmt, text, must_raise, label):
         import spydrnet as sdn
 
+        import time
+
         before = sdn.namespace_manager.default
         raised = None
         nl = None
+        t0 = time.time()
         try:
             nl = parse_string(fmt, text)
         except Exception as e:  # noqa: a clean rejection
             raised = e
+        if time.time() - t0 > self.PARSE_LIMIT_S:
+            res.label("slow-parse(>%ds, inconclusive)" % self.PARSE_LIMIT_S)
         after = sdn.namespace_manager.default
         if after != before:
             res.violate("C15:%s:policy-not-restored-after-%s" % (fmt, "rejection" if raised else "success"),
